@@ -344,6 +344,9 @@ def run(rep, tier, seed, proof_ok, rng):
     # the offending call in every syntactic position, with every kind of offence (and the well-formed twins)
     import c11_positions
     c11_positions.run(rep, tier, seed, proof_ok, rng)
+    # the offending call visible to the run-time checks only, under the exception handlers of user code and helper libraries
+    import c11_dynamic
+    c11_dynamic.run(rep, tier, seed, proof_ok, rng)
     rep.extra["program_part"] = {"call_graphs": len(good), "call_graphs_with_positions": sum(1 for r in good if r["graph"].get("positions")), "verdicts": verdicts, "overlap_evaluations": len(ocases), "overlap_root_path": len(rcases)}
 
 
@@ -351,6 +354,9 @@ def replay(r):
     if r.get("position_sweep"):
         import c11_positions
         return c11_positions.replay(r)
+    if r.get("dynamic_sweep"):
+        import c11_dynamic
+        return c11_dynamic.replay(r)
     print(json.dumps({k: r[k] for k in r if k != "src"}, indent=1)[:2000])
     print("replay: re-run ./check C11 quick with the same seed; sources are in the replay file")
     return 1
